@@ -123,7 +123,7 @@ def PSpec.step (p : PSpec) (e : SEv) : PSpec × OCls :=
     | .declare _ => (p, .rejected)
     | .release _ => (p, .rejected)
     | .rollbackTo _ => (p, .rejected)
-    | .rollback => (p, .ok)
+    | .rollback => if e.bf then (p, .failed) else (p, .ok)
     | .upd u =>
       if e.cf then (p, .rejected) else if e.bf then (p, .failed)
       else (PSpec.out (u.apply p.base), .ok)
@@ -139,8 +139,10 @@ def PSpec.step (p : PSpec) (e : SEv) : PSpec × OCls :=
   else
     match e.stmt with
     | .start => (p.abort, .rejected)
-    | .commit => if e.bf then (PSpec.out p.base, .failed) else (PSpec.out p.cur, .ok)
-    | .rollback => (PSpec.out p.base, .ok)
+    | .commit =>
+      if e.bf then (if e.stay then (p.abort, .failed) else (PSpec.out p.base, .failed))
+      else (PSpec.out p.cur, .ok)
+    | .rollback => if e.bf then (p.abort, .failed) else (PSpec.out p.base, .ok)
     | .declare n =>
       if e.bf then (p.abort, .failed) else ({ p with frames := (n, p.cur) :: p.frames }, .ok)
     | .release n =>
@@ -182,12 +184,15 @@ def releaseSplit (n : Nat) : List Frame → Option (List Nat × List Frame)
       | some (g, r) => some (f.1 :: g, r)
 
 /-- The envelope of the protocol theorem, for one statement at spec state `p`:
-    * the backend fails only on payload statements, queries and COMMIT;
+    * the backend fails only on payload statements, queries and COMMIT, and a failed COMMIT
+      ends the block (`stay = false`; a COMMIT or ROLLBACK that fails while the backend stays
+      in the block detaches the compiler's current transaction from the server's id — the
+      spec says what must happen then, the harness tests it, the theorem does not cover it);
     * a RELEASE does not remove a savepoint whose name is also carried by a savepoint that
       stays (the server never pops its own savepoint stack on RELEASE; see the
       counterexamples in Props/C09.lean). -/
 def PSpec.covers (p : PSpec) (e : SEv) : Bool :=
-  (!e.bf || match e.stmt with | .upd _ | .query | .commit => true | _ => false) &&
+  (!e.bf || match e.stmt with | .upd _ | .query => true | .commit => !e.stay | _ => false) &&
   (match e.stmt with
    | .release n =>
      if p.inTx && !p.failed && !e.bf then
